@@ -5,7 +5,9 @@ import os
 import time
 
 VERIF = os.path.dirname(os.path.dirname(os.path.abspath(__file__)))
-EVIDENCE_DIR = os.path.join(VERIF, "evidence")
+# runs against a deliberately modified tree (seed evaluation) write their evidence elsewhere so that the committed
+# evidence always describes a run on the unchanged tree
+EVIDENCE_DIR = os.environ.get("VERIF_EVIDENCE_DIR") or os.path.join(VERIF, "evidence")
 VIOL_DIR = os.path.join(EVIDENCE_DIR, "violations")
 KNOWN = os.path.join(VERIF, "known_findings.json")
 
